@@ -1,6 +1,6 @@
 (** C12 — old Sequence.get_translation on codons of IUPAC symbols = the set-based specification. *)
 From CG3 Require Import Lib.PyZ Lib.Val Model.GeneticCode Spec.GeneticCodeSpec Proofs.GeneticCodeProofs
-  Proofs.GeneticCodeCollProofs Proofs.GeneticCodeDegenA Proofs.GeneticCodeDegenB.
+  Proofs.GeneticCodeDegenDefs Proofs.GeneticCodeCollProofs Proofs.GeneticCodeDegenA Proofs.GeneticCodeDegenB.
 From CG3gen Require Import GCTables.
 
 Lemma degenerate_codon_lemma id aa st a b c ok inc :
